@@ -114,6 +114,27 @@ def c08(case, lines):
         r = rejected_wellformed(tr, "it and every later packet stay unacknowledged")
         if r:
             return r
+    if has(tr, "reconnect") and not has(tr, "dropctx", "hold"):
+        # a later connection of the same Context: exactly the acknowledgements due to ITS inbound packets, nothing left over
+        for j, cn in enumerate(connection_streams(tr)[1:], 1):
+            inj, outj = inbound(tr, cn), outbound(tr, cn)
+            if inj is None:
+                continue
+            if outj is None:
+                return "acks: what was written on connection %d is not a sequence of whole packets (left-overs of an earlier acknowledgement?)" % (j + 1)
+            if any(e.startswith("werr") for e in tr.evs[cn["first"]:cn["last"] + 1]):
+                continue
+            wantj = []
+            for k, p in inj[1:]:
+                i = rx_info(p)
+                if i["t"] == 3 and i["qos"] in (1, 2):
+                    wantj.append(("puback" if i["qos"] == 1 else "pubrec", i["pid"]))
+                elif i["t"] == 6:
+                    wantj.append(("pubcomp", i["pid"]))
+            gotj = [(i["kind"], i["pid"]) for k, i in outj if i["kind"] in ("puback", "pubrec", "pubcomp")]
+            if gotj != wantj:
+                return "acks: on connection %d the acknowledgements written %s differ from those due %s" % (j + 1, gotj[:6], wantj[:6])
+        return None
     if tr.faulty or has(tr, "reconnect", "dropctx", "hold"):
         return None
     conn = connection_streams(tr)[0]
@@ -324,6 +345,18 @@ def c11(case, lines):
     seen_order = []
     for l in lines:
         p = l.split(" ")
+        if p[1] in ("T", "U"):
+            d = kv(" ".join(p[2:]))
+            if p[1] == "T":
+                want = int(d["threads"]) * int(d["each"])
+                if int(d["dup"]) or int(d["zero"]) or int(d["packets"]) != want:
+                    return "threads: %s operations started concurrently from %s clones put %s identifier-bearing packets on the wire, %s with an identifier already in use, %s with identifier 0" % (
+                        want, d["threads"], d["packets"], d["dup"], d["zero"])
+            else:
+                if int(d["dup"]) or int(d["zero"]) or d["distinct"] != d["calls"] or d["subscribes"] != d["calls"] or int(d["incomplete"]):
+                    return "subid: %s subscribe() calls wrote %s SUBSCRIBE packets with %s distinct subscription identifiers (%s zero or missing, %s repeated%s, %s calls incomplete)" % (
+                        d["calls"], d["subscribes"], d["distinct"], d["zero"], d["dup"], (": " + d["firstdup"]) if "firstdup" in d else "", d["incomplete"])
+            continue
         if p[1] == "K":
             if "panic" in l:
                 return "panic: allocating an identifier panicked (operation %s)" % p[2]
@@ -463,6 +496,17 @@ def c13(case, lines):
     start, end = run_window(tr)
     rr = tr.run_result()
     cid = case["id"]
+    if cid.startswith("again-after-disconnect"):
+        # the first run() ended with the user's DISCONNECT; the second one, on the new connection, has no cause to end
+        rl = [(int(l.split(" ")[0]), l) for l in lines if l.split(" ")[1] == "R"]
+        k2 = next(k for k, e in enumerate(tr.evs) if e == "reconnect")
+        late = [l for k, l in rl if k > k2]
+        if late:
+            return "onlythen: run() on the second connection returned (%s) although every handle is alive and nothing ended it" % late[0]
+        bad = [op for op, rs in tr.done().items() if op > 0 and not rs[0][1].startswith("ok")]
+        if bad or len([op for op in tr.done() if op > 0]) < 2:
+            return "onlythen: operations on the second connection did not complete normally: %s" % {op: rs[0][1] for op, rs in tr.done().items()}
+        return None
     if cid.startswith("connack-refusal-"):
         c = [x for k in tr.by for x in tr.by[k] if x.startswith("C ")]
         r = int(cid.split("-")[2][1:])
@@ -823,6 +867,13 @@ def c07(case, lines):
         r = rejected_wellformed(tr, "the message never reaches its stream")
         if r:
             return r
+    if (case.get("id") or "").startswith("ack-write-fails"):
+        # the write fault hits the acknowledgement, after the message was handed to its stream
+        got = [kv(" ".join(l.split(" ")[3:]))["pl"] for l in lines if l.split(" ")[1] == "I"]
+        want = [M.hx(b"first"), M.hx(b"second")]
+        if got != want:
+            return "delivery: the stream yielded %s; delivered to it were %s (the second one's acknowledgement could not be written)" % (got, want)
+        return None
     if tr.faulty or has(tr, "reconnect", "hold"):
         return None
     conn = connection_streams(tr)[0]
@@ -1031,6 +1082,23 @@ def c17(case, lines):
 @oracle("C03")
 def c03(case, lines):
     tr = Trace(case, lines)
+    # a later connection of the same Context is framed from its own bytes only: its CONNACK is seen, its PINGRESP completes
+    conns = connection_streams(tr)
+    for j, cn in enumerate(conns[1:], 1):
+        inj = inbound(tr, cn)
+        if not inj or inj[0][1][0] >> 4 != 2:
+            continue
+        got = [x for k in range(cn["first"], cn["last"] + 1) for x in tr.by.get(k, []) if x.startswith("C ")]
+        if not got or not got[0].startswith("C ok"):
+            return "again: the CONNACK delivered at event %d on connection %d was not seen as such (connect() gave %s): bytes left over from the previous connection are still framed" % (
+                inj[0][0], j + 1, got[:1] or "nothing")
+        specs, fp, done = op_specs(tr), first_polls(tr), tr.done()
+        for k, p in inj[1:]:
+            if p[0] >> 4 == 13:
+                pend = [o for o, sp in specs.items() if sp["kind"] == "ping" and cn["first"] < fp.get(o, -1) < k]
+                polled_after = [o for o in pend if any(re.match(r"f?poll %d$" % o, e) for e in tr.evs[k + 1:cn["last"] + 1])]
+                if polled_after and not any(done.get(o) for o in polled_after):
+                    return "again: the PINGRESP delivered at event %d on connection %d completed no ping" % (k, j + 1)
     conn = connection_streams(tr)[0]
     inp = inbound(tr, conn)
     if inp is None:
@@ -1054,7 +1122,7 @@ def c03(case, lines):
         return "wire: written bytes are not whole packets"
     got_acks = [(o["kind"], o["pid"]) for k, o in outp if o["kind"] in ("puback", "pubrec", "pubcomp")]
     rr = tr.run_result()
-    ended = any(e in ("eof", "rerr") for e in tr.evs)
+    ended = any(e in ("eof", "rerr") for e in tr.evs) or any(e.startswith("start") and " disc" in e for e in tr.evs)
     if rr is not None and not ended:
         return "end: run() returned %s before the transport ended" % rr[1]
     if not ended and got_acks != want_acks:
